@@ -24,6 +24,9 @@ impl Extensions {
     pub uninterp spec fn get_spec<T>(&self) -> Option<T>;
     #[verifier::external_body]
     pub fn get<T>(&self) -> (r: Option<&T>) ensures match self.get_spec::<T>() { Some(v) => r matches Some(x) && *x == v, None => r is None } { unimplemented!() }
+    // A-http-40b: Extensions::insert::<T>(v) stores v under T (what it does to the entries of other types is not stated)
+    #[verifier::external_body]
+    pub fn insert<T>(&mut self, v: T) -> (r: Option<T>) ensures final(self).get_spec::<T>() == Some(v) { unimplemented!() }
 }
 '''
 
@@ -211,6 +214,12 @@ impl EnabledCompressionEncodings {
              Clause('P2_user_metadata_minus_reserved', 'sanitized_of(r.headers@, self.metadata.headers@)', ['C08', 'C03', 'C02']),
          ])
     u.fn(RS, 'extensions', within='impl<T> Response<T>', props=P, ensures=[Clause('field', '*r == self.extensions')])
+    u.fn(RS, 'extensions_mut', within='impl<T> Response<T>', props=['C05'],
+         ensures=[Clause('borrow_ext', '*r == old(self).extensions && *final(r) == final(self).extensions && final(self).message == old(self).message && final(self).metadata == old(self).metadata', ['C05'])])
+    u.fn(RS, 'disable_compression', within='impl<T> Response<T>', props=['C05'], display='Response::disable_compression',
+         body_edits=[lambda t: t.sub_code('R12', r'crate::codec::compression::SingleMessageCompressionOverride', 'SingleMessageCompressionOverride')],
+         ensures=[Clause('D1_the_opt_out_is_recorded_for_this_response_and_nothing_else_changes',
+                         'final(self).extensions.get_spec::<SingleMessageCompressionOverride>() == Some(SingleMessageCompressionOverride::Disable) && final(self).message == old(self).message && final(self).metadata == old(self).metadata', ['C05'])])
     EMPTYMAP = 'Map::<Seq<char>, Seq<Seq<u8>>>::empty()'
     u.fn(RS, 'new', within='impl<T> Response<T>', props=P, ensures=[Clause('fresh', 'r.message == message && r.metadata.headers@ == %s && r.extensions == Extensions::empty_spec()' % EMPTYMAP)])
     u.fn(RS, 'into_inner', within='impl<T> Response<T>', props=P, ensures=[Clause('message', 'r == self.message')])
